@@ -142,6 +142,14 @@ func (exec *Executor) getArrayIndex(
 	found := newList()
 	res, err := exec.executeItem(ctx, node, value, found)
 	if res == statusFailed {
+		if err == nil {
+			// The error was suppressed; make sure the failure is not
+			// mistaken for the subscript 0.
+			err = fmt.Errorf(
+				"%w: jsonpath array subscript is not a single numeric value",
+				ErrVerbose,
+			)
+		}
 		return 0, err
 	}
 
